@@ -17,6 +17,7 @@ import (
 func init() {
 	rt.Register("H_C19_frame", H_C19_frame)
 	rt.Register("H_C19_runtest", H_C19_runtest)
+	rt.Register("H_C19_builtins", H_C19_builtins)
 }
 
 var c19Programs = []string{
@@ -94,6 +95,43 @@ func H_C19_frame() {
 	rt.Assert(v1 == v2, "a program gives the same value / error message whatever was evaluated before")
 	rt.Assert(st1 == st2, "a stack trace never contains source lines or positions of earlier programs")
 	_ = evaluator.Eval
+}
+
+var c19Preludes = []string{
+	`o := Int; o2 := {y: 1, p: 5}; m := %{Int: Obj}; m2 := %{'k: [Str]}; a := [Int, Str, Nil]; aa := [[Arr], [Obj]]; ch := Arr`,
+	`o := {p: 1, q: [2]}; o2 := Str; m := %{1: Int}; m2 := %{Obj: 2}; a := [1, Int]; aa := [[Obj]]; ch := Iterable`,
+	`o := Obj; o2 := Int; m := %{'a: Arr}; m2 := %{'a: Map}; a := [Obj, BaseObj, Func]; aa := [[Int], [Float]]; ch := Comparable`,
+}
+
+// H_C19_builtins: a history program that hands the SHARED built-in objects (Int, Str, Obj,
+// Arr ...) to one of the call-site / literal constructs of C06 (unpacking, merging, bear,
+// chains, digest ...; shard Param(0) of Param(1)) must leave everything reachable from the
+// shared constants environment unchanged, so that later programs find the built-in objects
+// with their original properties.
+func H_C19_builtins() {
+	world := c19WorldSnap()
+	nStore := len(Env.Store)
+	unchanged := func(msg string) {
+		rt.Assert(len(Env.Store) == nStore, "earlier programs must not define variables in the shared environment")
+		for _, s := range world {
+			rt.Assert(s.same(), msg)
+		}
+	}
+	h := NewH()
+	pre := c19Preludes[rt.Choice(len(c19Preludes))]
+	h.Eval(pre + `; s := "abc"; r := (1:3); rd := (1:5:2); ad := [Int, Str]; i := 3; fn := {|q| q}; f2 := {|p: 0, y: 0| [p, y]}; f3 := {|u, v, w| [u, v, w]}`)
+	unchanged("binding built-in objects to names must leave them unchanged")
+	lo := len(c06Constructs) * rt.Param(0) / rt.Param(1)
+	hi := len(c06Constructs) * (rt.Param(0) + 1) / rt.Param(1)
+	c := c06Constructs[lo+rt.Choice(hi-lo)]
+	rt.Note(pre + " ; " + c)
+	probe := func() string {
+		return NewH().EvalNoPanic(`[1.try.verbose.err?, Int.keys.len, Obj.keys.len, Str.keys.len, Arr.keys.len, 1.try.y.err?, "s".try.p.err?]`).Inspect()
+	}
+	before := probe()
+	h.EvalNoPanic(c)
+	unchanged("an evaluation must leave the shared built-in objects unchanged, whatever construct they are handed to")
+	rt.Assert(probe() == before, "built-in objects keep their original properties for later programs")
 }
 
 // H_C19_runtest: the next file run by `pangaea test` does not see variables of the previous file.
